@@ -529,6 +529,8 @@ func c20Run(f []string) string {
 		t := newVT(width, n+2, true)
 		t.feed(out)
 		return fmt.Sprintf("ok b=%s rows=%s row=%d", Hex(out), t.rowsOut(n+1), t.row)
+	case "cli":
+		return c20RunOut(f)
 	}
 	return "bad-op"
 }
@@ -768,6 +770,7 @@ func c20Gen(r *Rand, tier string) []string {
 			}
 		}
 	}
+	out = append(out, c20GenOut(r, tier)...)
 	if tier == "thorough" {
 		// exhaustive: WriteLineNoWrap on every string over {a, ESC, m, [, é} up to length 5, widths 0..3 (6 for width 2)
 		alpha := []string{"a", "\x1b", "m", "[", "é"}
@@ -828,6 +831,20 @@ func c20Stats(cases []string) map[string]int {
 			}
 			continue
 		case "size", "termspec", "init":
+			continue
+		case "cli":
+			st["cli.stdout."+f[4]]++
+			if f[1] == "1" {
+				st["cli.noout"]++
+			}
+			if f[2] == "2d" {
+				st["cli.csvDash"]++
+			} else if f[2] != "-" {
+				st["cli.csvOther"]++
+			}
+			if f[3] == "1" {
+				st["cli.snapshot"]++
+			}
 			continue
 		case "vtermf":
 			hs = f[1]
